@@ -1,7 +1,8 @@
 """R6 / R7 / R8 of C05 (shared by C06, C08, C11): layout of the signed strings, canonical-form waypoints, URI-encoding byte table."""
 import hashlib
 
-from .. import flow, paths, writes
+from .. import flow, inline, layout, paths, writes
+from ..layout import ALT, JOIN, LOOP
 from ..facts import callee_def, short
 from ..report import AnchorMissing
 
@@ -30,15 +31,44 @@ def arg_roles(body, a, frames=()):
     items = {short(c["def"]) for c in sl.consts if c.get("c") == "item"}
     way = {short(callee_def(t)) for _, t, _ in sl.calls}
     lits = set(lits) | items
+    # function items passed as values (`.map(str::trim)`) are waypoints too, and so is whatever a closure in the slice calls
+    way |= {short(c["def"]) for c in sl.consts if c.get("c") == "fn" and c.get("def")}
+    if _DB[0] is not None:
+        for _, rv in sl.aggs:
+            if rv.get("agg") == "closure":
+                for cb in _DB[0].nested(_DB[0].body(rv.get("def", ""))) if _DB[0].body(rv.get("def", "")) is not None else []:
+                    for _, ct in cb.calls():
+                        if not flow.is_transparent(ct) and not ct.get("span", {}).get("exp"):
+                            way.add(short(callee_def(ct)))
     params = set()
     if frames:
-        caller, term, _ = frames[-1]
-        for l, pr in sl.params:
-            if l - 1 < len(term["args"]):
-                p2, l2, w2 = arg_roles(caller, term["args"][l - 1], frames[:-1])
-                params |= p2
-                lits |= l2
-                way |= w2
+        fr = frames[-1]
+        caller, term = fr[0], fr[1]
+        if len(fr) > 3 and fr[3] == "closure":
+            # closure handed to an iterator adaptor: its own parameters are items of the receiver / other arguments of the call;
+            # a captured variable is the capture operand at the construction site
+            for l, pr in sl.params:
+                if l == 1:
+                    fs = [e for e in pr if e[0] == "f"]
+                    ops = fr[4] or []
+                    if fs and fs[0][1] < len(ops):
+                        p2, l2, w2 = arg_roles(caller, ops[fs[0][1]], frames[:-1])
+                        params |= p2
+                        lits |= l2
+                        way |= w2
+                else:
+                    for a2 in term["args"]:
+                        p2, l2, w2 = arg_roles(caller, a2, frames[:-1])
+                        params |= p2
+                        lits |= l2
+                        way |= w2
+        else:
+            for l, pr in sl.params:
+                if l - 1 < len(term["args"]):
+                    p2, l2, w2 = arg_roles(caller, term["args"][l - 1], frames[:-1])
+                    params |= p2
+                    lits |= l2
+                    way |= w2
     else:
         for l, pr in sl.params:
             params.add(body.local_name(l) or "_%d" % l)
@@ -46,7 +76,10 @@ def arg_roles(body, a, frames=()):
 
 
 ITER_OPS = {"into_iter", "iter", "next", "new", "push", "split_first", "as_ref", "as_slice", "deref", "as_str", "get_all", "unwrap", "unwrap_or_default", "len",
-            "with_capacity", "as_bytes", "get_unique", "and_then", "is_some", "is_empty", "not"}
+            "with_capacity", "as_bytes", "get_unique", "and_then", "is_some", "is_empty", "not",
+            # order- and value-preserving iterator plumbing (what a closure inside them calls is accounted separately)
+            "call", "call_mut", "call_once", "enumerate", "filter", "map", "collect", "copied", "cloned", "filter_map", "by_ref", "peekable", "eq", "ne",
+            "gt", "lt", "is_skipped_header", "is_skipped_query_string"}
 
 
 def E(callee, const=None, params=(), lits=(), way=(), loop=False, flag=None, only=None):
@@ -55,7 +88,7 @@ def E(callee, const=None, params=(), lits=(), way=(), loop=False, flag=None, onl
             "only": None if only is None else set(only)}
 
 
-def match_event(body, ev, exp):
+def match_event(body, ev, exp, check_loop=True):
     """None if the event matches the expectation, else a description of the difference"""
     if ev["short"] != exp["callee"]:
         return "appends with %s, layout expects %s" % (ev["short"], exp["callee"])
@@ -69,7 +102,7 @@ def match_event(body, ev, exp):
     if exp["flag"] is not None:
         if exp["flag"] not in consts:
             return "flag argument is %s, layout expects %s" % (consts, exp["flag"])
-    if bool(ev["in_loop"]) != bool(exp["loop"]):
+    if check_loop and bool(ev["in_loop"]) != bool(exp["loop"]):
         return "is %s a loop, layout expects %s" % ("inside" if ev["in_loop"] else "outside", "inside" if exp["loop"] else "outside")
     if exp["params"] or exp["lits"] or exp["way"]:
         params, lits, way = set(), set(), set()
@@ -91,40 +124,35 @@ def match_event(body, ev, exp):
     return None
 
 
+def _spec_callees(spec):
+    out = set()
+    for s in spec:
+        if "callee" in s:
+            out.add(s["callee"])
+        elif s["t"] == "ALT":
+            out |= _spec_callees(s["alts"])
+        elif s["t"] == "JOIN":
+            out |= _spec_callees([s["sep"]]) | _spec_callees(s["items"])
+        else:
+            out |= _spec_callees(s["items"])
+    return out
+
+
 def check_layout(chk, db, rule, fn, expected, alt_tail=()):
+    """the builder's write trace, in canonical form (s3sv/layout.py), equals the specified layout.  `expected`: list of E(..) / ALT / JOIN / LOOP;
+    alt_tail: alternatives of which exactly one is appended last"""
     _DB[0] = db
     b = db.body(fn)
     if b is None:
         chk.anchor_missing(rule, "builder %s not found" % fn)
         return
+    spec = list(expected) + ([ALT(*alt_tail)] if len(alt_tail) > 1 else list(alt_tail))
     buf = result_buffer(b)
-    ev = writes.buffer_events(b, buf, db, prim={e["callee"] for e in list(expected) + list(alt_tail)})
+    ev = writes.buffer_events(b, buf, db, prim=_spec_callees(spec))
     key = short(fn) + ("@v2" if "sig_v2" in fn else "")
-    n_fixed = len(expected)
-    desc = writes.describe(ev)
-    if len(ev) != n_fixed + len(alt_tail):
-        chk.fail(rule, key + ".shape", b.loc(), "write trace has %d appends, the layout has %d: %s" % (len(ev), n_fixed + len(alt_tail), desc),
-                 {"trace": desc})
-        return
-    bad = []
-    for i, exp in enumerate(expected):
-        m = match_event(b, ev[i], exp)
-        if m:
-            bad.append("item %d (line %d) %s" % (i, ev[i]["line"], m))
-    tail = ev[n_fixed:]
-    used = set()
-    for exp in alt_tail:
-        hit = None
-        for j, e in enumerate(tail):
-            if j in used:
-                continue
-            if match_event(b, e, exp) is None:
-                hit = j
-                break
-        if hit is None:
-            bad.append("no alternative matches %s(%r)" % (exp["callee"], exp["const"]))
-        else:
-            used.add(hit)
+    nodes = layout.canon(ev)
+    desc = layout.describe(nodes)
+    bad = layout.match(nodes, spec, lambda e, x: match_event(b, e, x, check_loop=False))
     chk.verdict(not bad, rule, key, b.loc(), "layout of %s differs from the specification: %s" % (short(fn), "; ".join(bad)), detail={"trace": desc},
                 witness={"trace": desc})
     if not bad and len(chk.samples) < 8:
@@ -133,17 +161,15 @@ def check_layout(chk, db, rule, fn, expected, alt_tail=()):
 
 NL = "\n"
 
+QS_ROLE = dict(params={"decoded_query_strings"}, way={"uri_encode_string", "stable_sort_by_first"})
 CANONICAL_COMMON = [
     E("push_str", params={"method"}, way={"as_str"}, only=()), E("push", NL),
     E("uri_encode", params={"uri_path"}, flag=0, only=()), E("push", NL),
-    E("push_str", params={"decoded_query_strings"}, way={"uri_encode_string", "stable_sort_by_first"}), E("push", "="),
-    E("push_str", params={"decoded_query_strings"}, way={"uri_encode_string", "stable_sort_by_first"}),
-    E("push", "&", loop=True), E("push_str", params={"decoded_query_strings"}, way={"uri_encode_string", "stable_sort_by_first"}, loop=True),
-    E("push", "=", loop=True), E("push_str", params={"decoded_query_strings"}, way={"uri_encode_string", "stable_sort_by_first"}, loop=True),
+    JOIN(E("push", "&"), E("push_str", **QS_ROLE), E("push", "="), E("push_str", **QS_ROLE)),
     E("push", NL),
-    E("push_str", params={"signed_headers"}, loop=True, only=()), E("push", ":", loop=True), E("push_str", params={"signed_headers"}, way={"trim"}, loop=True, only=()), E("push", NL, loop=True),
+    LOOP(E("push_str", params={"signed_headers"}, only=()), E("push", ":"), E("push_str", params={"signed_headers"}, way={"trim"}, only=()), E("push", NL)),
     E("push", NL),
-    E("push", ";", loop=True), E("push_str", params={"signed_headers"}, loop=True),
+    JOIN(E("push", ";"), E("push_str", params={"signed_headers"})),
     E("push", NL),
 ]
 CANONICAL_PAYLOADS = [E("push_str", "STREAMING-AWS4-HMAC-SHA256-PAYLOAD"), E("hex_sha256", params={"payload"}), E("push_str", "EMPTY_STRING_SHA256_HASH"),
@@ -250,6 +276,18 @@ def rule_hmac_chain(chk, db):
         chk.verdict(lits[:1] == ["AWS4"], "R6", "hmac-chain.prefix", b.loc(), "signing key buffer starts with %r, the spec says \"AWS4\" then the secret" % lits[:1], nontrivial=False)
 
 
+def _family(db, b):
+    """the builder, the helper functions inlined into it, and every closure nested in any of them"""
+    ib = inline.inlined(db, b)
+    roots = [b] + [db.body(n) for n in getattr(ib, "inlined_from", []) if db.body(n) is not None]
+    out = []
+    for r in roots:
+        for x in db.nested(r):
+            if x not in out:
+                out.append(x)
+    return out
+
+
 def rule_r6_v2(chk, db):
     _DB[0] = db
     b = db.body(M2 + "create_string_to_sign")
@@ -257,17 +295,18 @@ def rule_r6_v2(chk, db):
         raise AnchorMissing("sig_v2 create_string_to_sign not found")
     buf = result_buffer(b)
     ev = writes.buffer_events(b, buf, db, prim={"push", "push_str"})
-    desc = writes.describe(ev)
+    desc = layout.describe(layout.canon(ev))
     head = V2_STRING_TO_SIGN
     bad = []
     if len(ev) < len(head) + 4:
-        chk.fail("R6", "create_string_to_sign@v2.shape", b.loc(), "write trace too short: %s" % desc)
+        chk.fail("R6", "create_string_to_sign@v2", b.loc(), "write trace too short: %s" % desc)
         return
     for i, exp in enumerate(head):
-        m = match_event(b, ev[i], exp)
+        m = match_event(b, ev[i], exp, check_loop=False)
         if m:
             bad.append("item %d %s" % (i, m))
     rest = ev[len(head):]
+    fam = _family(db, b)
     # date | expires alternatives: two (push_str, push '\n') pairs in either order
     alts = rest[:4]
     date_ok = exp_ok = False
@@ -285,7 +324,7 @@ def rule_r6_v2(chk, db):
         if "date" in l and "headers" in p:
             # "if you include the x-amz-date header, use the empty string for the Date": the operand also has the "" definition,
             # selected by get_unique("x-amz-date").is_some()
-            xad = [1 for b2, t2 in b.calls() if short(callee_def(t2)) == "get_unique" and paths.str_args(b, t2) == ["x-amz-date"]]
+            xad = [1 for x in fam for b2, t2 in x.calls() if short(callee_def(t2)) == "get_unique" and paths.str_args(x, t2) == ["x-amz-date"]]
             if "" in l and xad:
                 date_ok = True
         if "Expires" in l and "qs" in p:
@@ -294,26 +333,20 @@ def rule_r6_v2(chk, db):
         bad.append("HeaderAuth mode does not sign `Date` (empty when x-amz-date is present)")
     if not exp_ok:
         bad.append("PresignedUrl mode does not sign the `Expires` parameter")
-    tail = rest[4:]
+    tail = layout.canon(rest[4:])
+    H = dict(params={"headers"})
     exp_tail = [
-        E("push_str", params={"headers"}, loop=True), E("push", ":", loop=True), E("push_str", params={"headers"}, way={"trim"}, loop=True),
-        E("push", ",", loop=True), E("push_str", params={"headers"}, way={"trim"}, loop=True), E("push", NL, loop=True),
+        LOOP(E("push_str", **H), E("push", ":"), JOIN(E("push", ","), E("push_str", params={"headers"}, way={"trim"})), E("push", NL)),
         E("push", "/"), E("push_str", params={"virtual_host_bucket"}, only=()), E("push_str", params={"uri_path"}, only=()),
-        E("push", "?", loop=True), E("push", "&", loop=True), E("push_str", lits={"INCLUDED_QUERY"}, loop=True), E("push", "=", loop=True),
-        E("push_str", params={"qs"}, loop=True),
+        JOIN(ALT(E("push", "?"), E("push", "&")), E("push_str", lits={"INCLUDED_QUERY"}), E("push", "="), E("push_str", params={"qs"})),
     ]
-    if len(tail) != len(exp_tail):
-        bad.append("amz-headers/resource part has %d appends, layout has %d" % (len(tail), len(exp_tail)))
-    else:
-        for i, exp in enumerate(exp_tail):
-            m = match_event(b, tail[i], exp)
-            if m:
-                bad.append("resource item %d %s" % (i, m))
+    bad += layout.match(tail, exp_tail, lambda e, x: match_event(b, e, x, check_loop=False), "resource")
     # x-amz- prefix literal guards the header loop
     lits_all = set()
-    for bi, t in b.calls():
-        if short(callee_def(t)) == "starts_with":
-            lits_all |= set(paths.str_args(b, t))
+    for x in fam:
+        for bi, t in x.calls():
+            if short(callee_def(t)) == "starts_with":
+                lits_all |= set(paths.str_args(x, t))
     if "x-amz-" not in lits_all:
         bad.append("canonicalized amz headers are not selected by the `x-amz-` prefix")
     chk.verdict(not bad, "R6", "create_string_to_sign@v2", b.loc(), "V2 string-to-sign layout differs from the specification: %s" % "; ".join(bad),
